@@ -352,6 +352,19 @@ fn vp_native_response_truncation_end_to_end_body() {
             let mut sink = Vec::new(); let wt = open().unwrap().write_to(&mut sink);
             assert_eq!(wt.is_ok(), complete, "{} response cut at {}: write_to()", name, cut);
             assert!(payload.starts_with(&sink), "{} response cut at {}: write_to() wrote bytes the server never sent", name, cut);
+            // every other way of reading to the end: the text helper, read_to_end / read_to_string of std on the response and on
+            // the reader split off it
+            let t = open().unwrap().text_utf8();
+            assert_eq!(t.is_ok(), complete, "{} response cut at {} of {}: text_utf8() -> {:?}", name, cut, wire.len(), t);
+            let mut v = Vec::new(); let re = open().unwrap().read_to_end(&mut v);
+            assert_eq!(re.is_ok(), complete, "{} response cut at {}: Read::read_to_end() -> {:?} ({} bytes)", name, cut, re, v.len());
+            assert!(payload.starts_with(&v), "{} response cut at {}: read_to_end() delivered bytes the server never sent", name, cut);
+            let mut st = String::new(); let rs = open().unwrap().read_to_string(&mut st);
+            assert_eq!(rs.is_ok(), complete, "{} response cut at {}: Read::read_to_string() -> {:?}", name, cut, rs);
+            let mut v2 = Vec::new(); let re2 = open().unwrap().split().2.read_to_end(&mut v2);
+            assert_eq!(re2.is_ok(), complete, "{} response cut at {}: ResponseReader read_to_end() -> {:?} ({} bytes)", name, cut, re2, v2.len());
+            let t2 = open().unwrap().split().2.text_utf8();
+            assert_eq!(t2.is_ok(), complete, "{} response cut at {}: ResponseReader::text_utf8() -> {:?}", name, cut, t2);
             for size in [1usize, 5, 64] {
                 let mut r = open().unwrap(); let mut out = Vec::new(); let mut errors = 0; let mut clean = false;
                 for _ in 0..200 {
